@@ -4,8 +4,8 @@ for the whole loop; the frame of one step.  Core Lean only.
 -/
 import KcpVerif.Model.Kcp
 
-namespace KcpVerif.Kcp
-open KcpVerif KcpVerif.Gen
+namespace KcpVerif.Live
+open KcpVerif KcpVerif.Gen KcpVerif.Kcp
 
 /-- what one valid segment does to the loop state (`st2` of the model); `payload` is the
 `length` bytes after the header -/
@@ -237,4 +237,4 @@ theorem input_eq (k : Kcp) (data : Bytes) (regular ackNoDelay : Bool) (now : U32
           (flush (inK2 k data regular now) false now).panic⟩
       else ⟨inK2 k data regular now, 0, [], false⟩ := rfl
 
-end KcpVerif.Kcp
+end KcpVerif.Live
